@@ -1,29 +1,60 @@
 ----------------------------- MODULE Trace_kinds -----------------------------
-(* Trace validation for C17: every line is one call of the real              *)
-(* value_kinds_description_json (and the query-parameter twin) with its input *)
-(* list and its output; the output must be the phrase DescSpec assigns to the *)
-(* SET of the input (and what the transcription DescImpl computes).           *)
+(* Trace validation for C17: every "reset" line is one call of the real       *)
+(* value_kinds_description_json with its input list, its output and the items *)
+(* the output is joined from.  What the property fixes is judged: the phrase   *)
+(* depends only on the SET of kinds, names every kind of the set and nothing  *)
+(* else ('a number' covering the integer kinds, 'an integer' for both integer *)
+(* kinds without floats, the individual names otherwise), is joined as 'a',   *)
+(* 'a or b', 'a, b, or c', in ONE fixed order, with a generic fallback for    *)
+(* the empty list.  What it leaves open is read from the implementation once  *)
+(* (the "probe" line at the head of every shard): the individual names, the   *)
+(* fallback text and which fixed order it is.  DKinds!DescSpec / DescImpl     *)
+(* (the pinned wording and order, model-checked in MC_kinds) are one instance.*)
 EXTENDS DKinds, Json, IOUtils, TLC
 
 Rec == ndJsonDeserialize(IOEnv.TRACE)
 
-VARIABLES l, nviol, viol
-tvars == <<kinds, l, nviol, viol>>
+VARIABLES l, nviol, viol, pr
+tvars == <<kinds, l, nviol, viol, pr>>
 
-Agrees(e) == /\ e.out = DescSpec(Range(e.inp.kinds))
-             /\ e.out = DescImpl(e.inp.kinds)
-             /\ e.qout = QueryDescSpec(Range(e.inp.kinds))
+NoProbe == [has |-> FALSE, names |-> [k \in Kinds |-> ""], empty |-> "", pairs |-> {}]
+BothInts(S) == "Integer" \in S /\ "NegativeInteger" \in S
+Individual(S) == (S \ {"Float"}) \ (IF "Float" \in S \/ BothInts(S) THEN {"Integer", "NegativeInteger"} ELSE {})
+ItemSet(S, p) == {p.names[k] : k \in Individual(S)}
+                 \cup (IF "Float" \in S THEN {"a number"} ELSE IF BothInts(S) THEN {"an integer"} ELSE {})
 
-TraceInit == kinds = <<>> /\ l = 1 /\ nviol = 0 /\ viol = <<>>
+ProbeSane(p) ==
+    /\ p.names["Float"] = "a number"                                   \* floats are 'a number' (which stands for the integer kinds too)
+    /\ \A k \in Kinds \ {"Float"} : p.names[k] \notin {"a number", "an integer", ""}
+    /\ \A j, k \in Kinds : j # k => p.names[j] # p.names[k]             \* every kind has a name of its own
+    /\ p.empty # "" /\ p.empty \notin {p.names[k] : k \in Kinds} \cup {"an integer"}
+    /\ \A x \in p.pairs : <<x[2], x[1]>> \notin p.pairs /\ x[1] # x[2]  \* one fixed order
+
+Agrees(e, p) ==
+    LET S == Range(e.inp.kinds) IN
+    /\ p.has
+    /\ IF S = {} THEN e.out = p.empty
+       ELSE /\ Join(e.items) = e.out                                   \* 'a', 'a or b', 'a, b, or c'
+            /\ Range(e.items) = ItemSet(S, p)                           \* every kind of the set, nothing outside it
+            /\ Len(e.items) = Cardinality(ItemSet(S, p))                \* ... once
+            /\ \A i, j \in 1..Len(e.items) : i < j => <<e.items[i], e.items[j]>> \in p.pairs     \* in the fixed order
+
+TraceInit == kinds = <<>> /\ l = 1 /\ nviol = 0 /\ viol = <<>> /\ pr = NoProbe
 
 TraceNext ==
     /\ l <= Len(Rec)
     /\ l' = l + 1
     /\ LET e == Rec[l] IN
-         /\ kinds' = e.inp.kinds              \* the machine is set to the logged list
-         /\ \A j \in 1..Len(e.inp.kinds) : e.inp.kinds[j] \in Kinds
-         /\ nviol' = IF Agrees(e) THEN nviol ELSE nviol + 1
-         /\ viol'  = IF ~Agrees(e) /\ Len(viol) < 10 THEN Append(viol, l) ELSE viol
+         IF e.e = "probe"
+         THEN LET p == [has |-> TRUE, names |-> e.names, empty |-> e.empty, pairs |-> {e.pairs[j] : j \in 1..Len(e.pairs)}] IN
+              /\ pr' = p /\ kinds' = kinds
+              /\ nviol' = IF ProbeSane(p) THEN nviol ELSE nviol + 1
+              /\ viol'  = IF ~ProbeSane(p) /\ Len(viol) < 10 THEN Append(viol, l) ELSE viol
+         ELSE /\ kinds' = e.inp.kinds              \* the machine is set to the logged list
+              /\ pr' = pr
+              /\ \A j \in 1..Len(e.inp.kinds) : e.inp.kinds[j] \in Kinds
+              /\ nviol' = IF Agrees(e, pr) THEN nviol ELSE nviol + 1
+              /\ viol'  = IF ~Agrees(e, pr) /\ Len(viol) < 10 THEN Append(viol, l) ELSE viol
 
 TraceSpec == TraceInit /\ [][TraceNext]_tvars
 Final == l = Len(Rec) + 1
